@@ -1,6 +1,6 @@
 #!/bin/sh
 # usage: tools/verify_mutant.sh Cxx   — confirms the sub-agent's claims in its own scratch worktree
-id="$1"; wt=/tmp/mut_$id; out=/tmp/mut_out/$id
+id="$1"; pre="${2:-mut}"; wt=/tmp/${pre}_$id; out=/tmp/${pre}_out/$id
 cd $wt || exit 2
 git -C $wt checkout -q -- . && git -C $wt apply $out/patch.diff || { echo "patch does not apply"; exit 2; }
 t=$(PYTHONPATH=$wt /venv/bin/python -m pytest -q -p no:cacheprovider --timeout=900 2>&1 | tail -1)
